@@ -17,7 +17,8 @@ type c19Case struct {
 	D    [4]string   `json:"d"` // as passed to Engine.Delims ("" = default for that position)
 	P    *hx.Program `json:"p"`
 	Hy   []bool      `json:"hy,omitempty"`
-	Fail int         `json:"fail"` // 0 none; n > 0: a failing object after n newlines at the end
+	Fail int         `json:"fail"`           // 0 none; n > 0: a failing object after n newlines at the end
+	Prev *[4]string  `json:"prev,omitempty"` // an earlier Delims call on the same engine (the later call decides)
 }
 
 var c19Defaults = [4]string{"{{", "}}", "{%", "%}"}
@@ -91,7 +92,15 @@ var c19Equiv = hx.Define("c19.equivalence", func(c *c19Case, s *hx.Sub) *hx.Viol
 	b := c.P.Binds
 	var oc hx.Outcome
 	var eng *liquid.Engine
-	if pi := hx.Guard(func() { eng = c19Engine(c.D) }); pi != nil {
+	if pi := hx.Guard(func() {
+		if c.Prev != nil {
+			eng = newEngine(nil)
+			eng.Delims(c.Prev[0], c.Prev[1], c.Prev[2], c.Prev[3])
+			eng.Delims(c.D[0], c.D[1], c.D[2], c.D[3])
+		} else {
+			eng = c19Engine(c.D)
+		}
+	}); pi != nil {
 		return hx.V("panic@"+pi.Site, "Delims(%q): %v", c.D, pi)
 	}
 	oc = hx.RenderWith(eng, custom, b.Realise())
@@ -291,6 +300,10 @@ func TestC19(t *testing.T) {
 		k := hx.CountTags(c19Tokens(c))
 		if rapid.IntRange(0, 3).Draw(t, "hyphens") > 0 {
 			c.Hy = rapid.SliceOfN(rapid.Bool(), 2*k, 2*k).Draw(t, "hy")
+		}
+		if rapid.IntRange(0, 3).Draw(t, "reconfigured") == 0 {
+			prev := genQuad(punct).Draw(t, "previous-quadruple")
+			c.Prev = &prev
 		}
 		if v := eq.Run(c); v != nil {
 			t.Fatalf("%s", v.Message)
